@@ -62,8 +62,16 @@ func splitFilter(f string) (string, string) {
 }
 
 func caseLine(m *fga.Model, ts *typesystem.TypeSystem, depth int, tuples, ctxT []fga.Tuple, obj, rel, filter string, ctx []fga.KV) string {
+	return caseLineAux(m, ts, depth, tuples, ctxT, obj, rel, filter, ctx, false)
+}
+
+// caseLineAux: `lug` marks the one case that is run with breadth limit 1 and a short deadline (finding LU-G).
+func caseLineAux(m *fga.Model, ts *typesystem.TypeSystem, depth int, tuples, ctxT []fga.Tuple, obj, rel, filter string, ctx []fga.KV, lug bool) string {
 	ft, fr := splitFilter(filter)
 	aux := map[string]bool{"edges": hasEdges(ts, fga.TypeOf(obj), rel, ft, fr)}
+	if lug {
+		aux["lug"] = true
+	}
 	rq := fga.Req{Obj: obj, Rel: rel, User: filter, Ctx: ctx}
 	return fmt.Sprintf("cfg %d %d %s %s %s %s %s", depth, b2i(m.Stratified()), m.Encode(), fga.EncodeAux(aux),
 		fga.EncodeTuples("tuples", tuples), fga.EncodeTuples("ctx", ctxT), rq.Encode())
@@ -340,10 +348,30 @@ func focusedWorldOnce(r *hx.Rand) (*fga.Model, *typesystem.TypeSystem, []fga.Tup
 
 var userIDs = []string{"x", "y", "z"}
 
+// lugCase: `viewer: a or b` with two users in `a`, run with breadth limit 1: the first operand blocks on its
+// capacity-1 channel (its consumer is started only after the second operand was submitted to the pool, which
+// the pool of size 1 never accepts), ListUsers waits for its deadline and returns a partial result without error.
+func lugCase() string {
+	u := fga.Restr{Typ: "user"}
+	m := &fga.Model{Types: []*fga.TypeDef{{Name: "user"}, {Name: "doc", Rels: []*fga.RelDef{
+		{Name: "a", Rewrite: this(), Restrs: []fga.Restr{u}}, {Name: "b", Rewrite: this(), Restrs: []fga.Restr{u}},
+		{Name: "viewer", Rewrite: union(cu("a"), cu("b"))}}}}}
+	ts, err := typesystem.NewAndValidate(context.Background(), m.Proto(fgarun.ModelID))
+	if err != nil {
+		panic(err)
+	}
+	tuples := []fga.Tuple{{Obj: "doc:1", Rel: "a", User: "user:x"}, {Obj: "doc:1", Rel: "a", User: "user:y"}, {Obj: "doc:1", Rel: "b", User: "user:z"}}
+	return caseLineAux(m, ts, 25, tuples, nil, "doc:1", "viewer", "user", nil, true)
+}
+
 func gen(r *hx.Rand, n int, tier string, emit func(string), st *hx.Stats) {
 	for _, c := range crafted() {
 		emit(c)
 		st.Inc("crafted")
+	}
+	if tier == "thorough" {
+		emit(lugCase())
+		st.Inc("crafted-lug")
 	}
 	perWorld := 10
 	for i := 0; i < n; {
@@ -491,7 +519,7 @@ func canonErr(err error) string {
 // unions / intersections have at most 3 operands).
 const deadline = 5 * time.Second
 
-func listUsersOnce(ts *typesystem.TypeSystem, tuples, ctxT []fga.Tuple, rq fga.Req, depth int, breadth uint32) string {
+func listUsersOnce(ts *typesystem.TypeSystem, tuples, ctxT []fga.Tuple, rq fga.Req, depth int, breadth uint32, deadline time.Duration, partial bool) string {
 	ds := fgarun.Store(tuples)
 	defer ds.Close()
 	ft, fr := splitFilter(rq.User)
@@ -521,7 +549,7 @@ func listUsersOnce(ts *typesystem.TypeSystem, tuples, ctxT []fga.Tuple, rq fga.R
 	if err != nil {
 		return canonErr(err)
 	}
-	if time.Since(start) >= deadline {
+	if time.Since(start) >= deadline && !partial {
 		// the deadline cut the expansion: ListUsers returns the partial result without an error
 		return "E deadline"
 	}
@@ -530,10 +558,14 @@ func listUsersOnce(ts *typesystem.TypeSystem, tuples, ctxT []fga.Tuple, rq fga.R
 		us = append(us, tuple.UserProtoToString(u))
 	}
 	sort.Strings(us)
-	if len(us) == 0 {
-		return "R -"
+	pre := "R "
+	if partial && time.Since(start) >= deadline {
+		pre = "DEADLINE "
 	}
-	return "R " + strings.Join(us, ",")
+	if len(us) == 0 {
+		return pre + "-"
+	}
+	return pre + strings.Join(us, ",")
 }
 
 func exec(line string, st *hx.Stats) string {
@@ -542,7 +574,14 @@ func exec(line string, st *hx.Stats) string {
 	depth := t.Int()
 	_ = t.Int()
 	m := fga.DecodeModel(t)
-	fga.SkipAux(t)
+	t.Expect("aux")
+	lug := false
+	for i, k := 0, t.Int(); i < k; i++ {
+		key, val := t.Next(), t.Next()
+		if key == "lug" && val == "1" {
+			lug = true
+		}
+	}
 	tuples := fga.DecodeTuples(t, "tuples")
 	ctxT := fga.DecodeTuples(t, "ctx")
 	rq := fga.DecodeReq(t)
@@ -550,10 +589,14 @@ func exec(line string, st *hx.Stats) string {
 	if err != nil {
 		return "invalid-model"
 	}
+	if lug {
+		st.Inc("out:lug")
+		return listUsersOnce(ts, tuples, ctxT, rq, depth, 1, 400*time.Millisecond, true)
+	}
 	seen := map[string]bool{}
 	var outs []string
 	for _, b := range []uint32{10, 3, 10, 3} {
-		o := listUsersOnce(ts, tuples, ctxT, rq, depth, b)
+		o := listUsersOnce(ts, tuples, ctxT, rq, depth, b, deadline, false)
 		if !seen[o] {
 			seen[o] = true
 			outs = append(outs, o)
